@@ -85,7 +85,8 @@ func (d *Deliver) GetCommand() sms.ICommander {
 
 func (d *Deliver) GenEmptyResponse() sms.PDU {
 	return &DeliverResp{
-		Header: sgip.NewHeader(0, sgip.SGIP_DELIVER_REP, d.Header.Sequence[0], d.GetSequenceID()),
+		// the response carries the sequence number of the request, all three parts (SGIP 1.2 §3.4)
+		Header: sgip.Header{TotalLength: 0, CommandID: sgip.SGIP_DELIVER_REP, Sequence: d.Header.Sequence},
 	}
 }
 
